@@ -5,12 +5,12 @@ from harness.common import Stream
 from harness.props.C02 import run_histories_fmt
 
 PID = "C01"
-LEAN_MODULES = ["Astm.Proofs.C01", "Astm.State.C01"]
+LEAN_MODULES = ["Astm.Proofs.C01", "Astm.State.C01", "Astm.Surface.C01"]
 THEOREMS = [
     "Astm.C01.validate_iff_checksum_ok", "Astm.C01.ack_iff_checksum_ok", "Astm.C01.nak_no_effect",
     "Astm.C01.delivered_from_acked", "Astm.C01.damaged_frame_is_transparent", "Astm.C01.example_frames",
     "Astm.validB_iff", "Astm.join_valid", "Astm.step_refines",
-    "Astm.C01.anchored_code_keeps_no_other_state",
+    "Astm.C01.anchored_code_keeps_no_other_state", "Astm.C01.anchored_code_keeps_its_signatures",
 ]
 RULE = ("sessions built from message texts and split points (1-4 frames per message, 1-3 messages); every frame is "
         "additionally sent in a corrupted variant (one byte of frame number / text / terminator / checksum changed) "
